@@ -21,6 +21,9 @@ package main
 
 import (
 	"bytes"
+	"flag"
+	"os"
+	"runtime/pprof"
 	"context"
 	"crypto/ecdsa"
 	"crypto/ed25519"
@@ -185,10 +188,26 @@ type mutation struct {
 	Val  int64  `json:"val,omitempty"`
 	Flag bool   `json:"flag,omitempty"`
 	Name string `json:"name,omitempty"`
+	// Resign > 0: after the mutation the attacker, acting as the last hops, replaces the Resign outermost layers
+	// by layers validly signed with its own keys (what a malicious forwarder can always do).
+	Resign int `json:"resign,omitempty"`
 }
 
 func (m mutation) String() string {
-	return fmt.Sprintf("%s%v/%d.%d/a%d/b%d/%v/%d/%v/%s", m.Kind, m.Path, m.Byte, m.Bit, m.A, m.B, m.Perm, m.Val, m.Flag, m.Name)
+	return fmt.Sprintf("%s%v/%d.%d/a%d/b%d/%v/%d/%v/%s/r%d", m.Kind, m.Path, m.Byte, m.Bit, m.A, m.B, m.Perm, m.Val, m.Flag, m.Name, m.Resign)
+}
+
+// pathDepth: layer depth (0 = outermost) a leaf path of the request belongs to; body = deepest (signed by the origin).
+func pathDepth(path []int, layers int) int {
+	origin := map[int]int{2: 7, 3: 4}[path[0]]
+	if path[0] == 1 {
+		return layers
+	}
+	d := 0
+	for i := 1; i < len(path) && path[i] == origin; i++ {
+		d++
+	}
+	return d
 }
 
 // legit mutations keep (or rebuild) a fully valid request; the model then demands acceptance.
@@ -382,7 +401,7 @@ func malleate(scheme int32, sig []byte) []byte {
 }
 
 // enumerate lists every mutation of the pristine request b (the enumeration IS the bound: nothing sampled).
-func enumerate(b *built, wire bool) []mutation {
+func enumerate(b *built, wire, allBits bool) []mutation {
 	var ms []mutation
 	ms = append(ms, mutation{Kind: "identity"})
 	walk(b.req.ProtoReflect(), nil,
@@ -454,6 +473,22 @@ func enumerate(b *built, wire bool) []mutation {
 		ms = append(ms, mutation{Kind: "resign-top", A: k})
 	}
 	ms = append(ms, mutation{Kind: "body-swap-resign-origin"})
+	// tamper with an inner layer (or the body), then re-sign every layer above it as a malicious forwarder:
+	// every bit (quick: the lowest bit of every byte / every bit of scalars) of every leaf below the re-signed layers.
+	for k := 1; k < L; k++ {
+		for _, f := range ms {
+			if f.Kind == "flip" && (allBits || f.Bit == 0) && pathDepth(f.Path, L) >= k {
+				f.Resign = k
+				ms = append(ms, f)
+			}
+		}
+		for s := 3 * k; s < nslots; s++ {
+			if *slotPtr(ls, s) != nil {
+				ms = append(ms, mutation{Kind: "drop-slot", A: s, Resign: k}, mutation{Kind: "resign-slot", A: s, Resign: k},
+					mutation{Kind: "key-menu", A: s, Name: "attacker", Resign: k}, mutation{Kind: "sign-menu", A: s, Name: "attacker-sig", Resign: k})
+			}
+		}
+	}
 	if wire {
 		for i := 0; i < len(b.wire)*8; i++ {
 			ms = append(ms, mutation{Kind: "wire-bit", Val: int64(i)})
@@ -517,6 +552,20 @@ func apply(b *built, m mutation) (*protoobject.GetRequest, map[provKey][]byte, b
 			return enc(metas[d])
 		}
 		return enc(ls[d].Origin)
+	}
+	resignTop := func(k int) {
+		var prev *vhdr
+		if k < L {
+			prev = ls[k]
+		}
+		for d := k - 1; d >= 0; d-- {
+			at := vkit.NewSigner(fmt.Sprintf("c33-mallory%d", d), slotScheme(3*d))
+			prev = signLayer(extra, at, oldRegime(req.MetaHeader), req.Body, metas[d], prev)
+		}
+		req.VerifyHeader = prev
+	}
+	if m.Resign > 0 {
+		defer resignTop(m.Resign)
 	}
 	switch m.Kind {
 	case "identity":
@@ -651,16 +700,7 @@ func apply(b *built, m mutation) (*protoobject.GetRequest, map[provKey][]byte, b
 			relinkM(nm)
 		}
 	case "resign-top": // the last A hops are replaced by the attacker acting as a regular forwarder / sender
-		k := m.A
-		var prev *vhdr
-		if k < L {
-			prev = ls[k]
-		}
-		for d := k - 1; d >= 0; d-- {
-			at := vkit.NewSigner(fmt.Sprintf("c33-mallory%d", d), slotScheme(3*d))
-			prev = signLayer(extra, at, oldRegime(req.MetaHeader), req.Body, metas[d], prev)
-		}
-		req.VerifyHeader = prev
+		resignTop(m.A)
 	case "body-swap-resign-origin": // attacker replaces the body and re-signs the ORIGINAL sender's layer only
 		req.Body.Address.ObjectId.Value = idBytes("c33-other-object")
 		at := vkit.NewSigner("c33-mallory", slotScheme(3*(L-1)))
@@ -1042,6 +1082,9 @@ func (w *world) check(b *built, m mutation, envs []env) {
 				cls = b.diffClass(mreq)
 			}
 			fp := fmt.Sprintf("accepted-unauthentic:first-invalid-slot-scheme=%s:mutated=%s", schemeName(mr.badSch), leafOf(cls))
+			if m.Resign > 0 {
+				fp += ":outer-layers-resigned-by-forwarder"
+			}
 			w.mu.Lock()
 			if len(w.accepted) < 400 {
 				w.accepted[fmt.Sprintf("%v %s %v", b.cfg, cls, m)] = true
@@ -1146,8 +1189,11 @@ func selfChecks(r *ev.Run, w *world) {
 		}
 		return true
 	})
-	if !peerauth.IsTrustedPeer(ctxs[3]) || peerauth.IsTrustedPeer(ctxs[0]) || peerauth.IsTrustedPeer(ctxs[1]) || peerauth.IsTrustedPeer(ctxs[2]) {
-		r.Fatal("peer contexts are not classified as constructed")
+	for i, ctx := range ctxs {
+		r.Eval(1)
+		if got := peerauth.IsTrustedPeer(ctx); got != (i == 3) {
+			w.viol("peerauth-context-classification:ctx="+ctxNames[i], fmt.Sprintf("IsTrustedPeer(%s) = %v; spec: only a peer whose TLS handshake produced peerauth.AuthInfo is an authenticated node", ctxNames[i], got), map[string]any{"peerauth": ctxNames[i]})
+		}
 	}
 }
 
@@ -1201,7 +1247,13 @@ func peerauthCases(r *ev.Run, w *world) {
 }
 
 func main() {
+	prof := flag.String("cpuprofile", "", "write a CPU profile (debugging aid)")
 	r := ev.Start("C33", ev.Exploration)
+	if *prof != "" {
+		f, _ := os.Create(*prof)
+		pprof.StartCPUProfile(f)
+		defer pprof.StopCPUProfile()
+	}
 	initContexts(r)
 	w := &world{r: r, classes: map[string]int64{}, viols: map[string]int64{}, accepted: map[string]bool{}}
 	if r.Replay != "" {
@@ -1219,7 +1271,7 @@ func main() {
 	var cfgs []config
 	regimes := []string{"2.24", "2.25"}
 	if r.Thorough() {
-		regimes = []string{"nover", "1.99", "2.24", "2.25", "2.26", "3.0"}
+		regimes = []string{"2.24", "2.25", "nover", "3.0"}
 	}
 	for L := 1; L <= 3; L++ {
 		var combos [][]int32
@@ -1233,7 +1285,7 @@ func main() {
 				return true
 			})
 		} else {
-			for s := int32(0); s < 4; s++ { // uniform chains of every scheme
+			for s := int32(0); s < 4 && L < 3; s++ { // uniform chains of every scheme (1 and 2 layers)
 				c := make([]int32, L)
 				for i := range c {
 					c[i] = s
@@ -1253,7 +1305,10 @@ func main() {
 			for si, sc := range combos {
 				for _, ttl := range []uint32{1, 2} {
 					// quick: the outer TTL alternates over (regime, scheme assignment) instead of being crossed with them
-					if r.Quick() && L > 1 && uint32((ri+si)%2)+1 != ttl {
+					if (r.Quick() && L > 1 || L == 3) && uint32((ri+si)%2)+1 != ttl {
+						continue
+					}
+					if L == 3 && ri >= 2 { // three layers: the two regimes at the 2.25 boundary only
 						continue
 					}
 					cfgs = append(cfgs, config{Layers: L, Regime: reg, Schemes: sc, TTL: ttl})
@@ -1282,7 +1337,10 @@ func main() {
 			bitEnvs = []env{{2, 3}}
 		}
 		if r.Thorough() {
-			bitEnvs = []env{{2, 2}, {2, 3}, {0, 0}, {1, 0}, {1, 3}}
+			bitEnvs = append(bitEnvs, env{0, 0})
+			if c.Layers < 3 {
+				bitEnvs = []env{{2, 2}, {2, 3}, {0, 0}, {1, 0}, {1, 3}}
+			}
 		}
 		return func(m mutation) []env {
 			if m.Kind == "flip" || m.Kind == "wire-bit" {
@@ -1296,7 +1354,7 @@ func main() {
 	for _, c := range cfgs {
 		b := w.built(c)
 		wire := r.Thorough() || c.TTL == 1 || c.Layers > 1
-		ms := enumerate(b, wire)
+		ms := enumerate(b, wire, r.Thorough())
 		total += len(ms)
 		for i := 0; i < len(ms); i += 512 {
 			jobs = append(jobs, job{b, ms[i:min(i+512, len(ms))], pickFor(c)})
@@ -1385,5 +1443,6 @@ func main() {
 		"protocol regimes: API < 2.25 or no version = origin chain verified; API >= 2.25 = only the outermost layer's body and meta signatures are covered (origin fields documented DEPRECATED/unchecked)",
 		"mutations that leave every covered signature valid but are not a legitimate re-signing have no demanded verdict (counted, not judged)")
 	r.Exhaustive(!expired)
+	pprof.StopCPUProfile()
 	r.Finish()
 }
